@@ -62,11 +62,69 @@ def worker(repo, job):
   print(json.dumps(out))
 
 
+def memo_witness(repo, site):
+  """A new process-wide memo on a function: look for two arguments that compare equal but on which the
+  unmemoised function answers differently -- then the memoised answer depends on which was seen first."""
+  common.load_cfg(repo)
+  import importlib  # pylint: disable=g-import-not-at-top
+  from pytype.pytd import pytd  # pylint: disable=g-import-not-at-top
+  mod = importlib.import_module(site['file'][:-3].replace('/', '.'))
+  obj = mod
+  for part in site['func'].split('.'):
+    obj = getattr(obj, part)
+  raw = getattr(obj, '__wrapped__', None)
+  if raw is None:
+    return None
+  a, b = pytd.NamedType('a'), pytd.NamedType('b')
+  K, V = pytd.TypeParameter('K'), pytd.TypeParameter('V')
+  L = lambda t: pytd.GenericType(pytd.NamedType('list'), (t,))
+  S_ = lambda t: pytd.GenericType(pytd.NamedType('set'), (t,))
+  c1 = pytd.Class('x', (), (), (), (), (), (), None, ())
+  c2 = pytd.Class('x', (), (), (), (), (), (), None, (pytd.TemplateItem(K),))
+  pairs = [(pytd.UnionType((a, b)), pytd.UnionType((b, a))),
+           (pytd.UnionType((L(K), S_(V))), pytd.UnionType((S_(V), L(K)))),
+           (L(pytd.UnionType((L(K), S_(V)))), L(pytd.UnionType((S_(V), L(K))))),
+           (pytd.IntersectionType((a, b)), pytd.IntersectionType((b, a))),
+           (pytd.ClassType('x', c1), pytd.ClassType('x', c2))]
+  for x, y in pairs:
+    if not (x == y and hash(x) == hash(y)):
+      continue
+    try:
+      rx, ry = raw(x), raw(y)
+    except Exception:  # pylint: disable=broad-except
+      continue
+    if repr(rx) != repr(ry):
+      try:
+        obj.cache_clear()
+        first = obj(x)
+        second = obj(y)
+        shown = repr(second)
+      except Exception as e:  # pylint: disable=broad-except
+        shown = 'error %s' % e
+      return dict(kind='history-dependent', cause='memo-on-coarse-equality',
+                  what='%s::%s is memoised process-wide (%s) but is not a function of its key: for the equal arguments %r == %r the '
+                       'unmemoised answers are %r and %r; after a call with the first, the memoised call with the second returns %s -- '
+                       'the answer depends on what was analysed earlier in the process' % (
+                           site['file'], site['func'], site['expr'], x, y, rx, ry, shown),
+                  function=site['func'], args=[repr(x), repr(y)])
+  return None
+
+
 def main():
   mode, repo = sys.argv[1], sys.argv[2]
   payload = json.loads(sys.stdin.read() or '{}')
   if mode == 'worker':
     return worker(repo, payload)
+  pre_violations = []
+  for f in payload.get('failing') or []:
+    site = f.get('site') or {}
+    if str(site.get('kind', '')).startswith('memo:'):
+      try:
+        w = memo_witness(repo, site)
+      except Exception as e:  # pylint: disable=broad-except
+        w = None
+      if w:
+        pre_violations.append(w)
   tier = payload.get('tier', 'quick')
   seed = payload.get('seed', 0)
   progs = corpus.load(repo, stride=4 if tier == 'quick' else 1)
@@ -88,7 +146,7 @@ def main():
       p.stdin.close()
       procs.append((si, ci, p))
   results = {}
-  violations = []
+  violations = list(pre_violations)
   for si, ci, p in procs:
     outp = p.stdout.read()
     err = p.stderr.read()
